@@ -61,7 +61,8 @@ def assumption_scan(groups):
     found = []
     files = set()
     for g in groups:
-        files.add(os.path.join(VERIF, 'harness', g.harness))
+        if g.harness:
+            files.add(os.path.join(VERIF, 'harness', g.harness))
     for f in sorted(files):
         try:
             txt = open(f).read()
